@@ -544,8 +544,16 @@ def main() -> None:
         and not args.nostdin
         and not sys.stdin.isatty()
     ):
-        exit_state = merge_docs(log, yaml_editor, merge_config, mergers, "-")
-        merge_count += 1
+        if len(mergers) < 1:
+            # STDIN is the only (non-empty) source; it provides the LHS
+            (mergers, mergers_loaded) = get_doc_mergers(
+                log, yaml_editor, merge_config, "-")
+            if not mergers_loaded:
+                exit_state = 4
+        else:
+            exit_state = merge_docs(
+                log, yaml_editor, merge_config, mergers, "-")
+            merge_count += 1
 
     # When no merges have occurred, check for a single-doc merge request
     if (exit_state == 0
